@@ -9,7 +9,7 @@ INT_TYPES = ("u8", "u16", "u32", "u64", "u128", "usize", "i8", "i16", "i32", "i6
 def module_fns(F, f, module):
     """from_str plus every local function/closure of `module` in its call closure"""
     cg = mir.CallGraph(F)
-    reach = cg.closure([f.path])
+    reach = cg.closure([f.path], generic=False)
     out = [F.fns[p] for p in sorted(reach) if p in F.fns and (p.startswith(module) or p.startswith(f.path))]
     return out
 
@@ -407,7 +407,7 @@ def semver_separators(F, rep, groups):
         else: rep.ok(rule, "regex literal before %s is '.'" % g)
     # the formatter's own pieces: "{}.{}.{}" and join(".")
     cg = mir.CallGraph(F)
-    reach = [F.fns[p] for p in cg.closure([d.path]) if p in F.fns and p.startswith("crate::version::semver::display")]
+    reach = [F.fns[p] for p in cg.closure([d.path], generic=False) if p in F.fns and p.startswith("crate::version::semver::display")]
     rep.fn_seen(*reach)
     tmpl = []; joins = []
     for g in reach:
